@@ -39,9 +39,60 @@ def shared_tris(rng, nt):
     return nv, ";".join("%d.%d.%d" % t for t in sorted(tris))
 
 
-def case_line(ver, nv, tris, inf, labels, steps, save=1):
-    return "seg ver=%s nv=%d attrs=u tris=%s inf=%s labels=%s steps=%s save=%d" % (
-        ver, nv, tris, inf, ",".join(map(str, labels)), ";".join(",".join(map(str, s)) for s in steps), save)
+def case_line(ver, nv, tris, inf, labels, steps, save=1, sse=None):
+    return "seg ver=%s nv=%d attrs=u tris=%s inf=%s labels=%s steps=%s save=%d%s" % (
+        ver, nv, tris, inf, ",".join(map(str, labels)), ";".join(",".join(map(str, s)) for s in steps), save,
+        (" sse=" + ";".join("%d.%d" % t for t in sse)) if sse else "")
+
+
+def sse_tiling(rng, nt):
+    """an SSE-style segment table (index, numTris) that tiles 0..nt: 1-4 contiguous segments, empty ones allowed"""
+    k = rng.randint(1, 4)
+    cuts = sorted(rng.randint(0, nt) for _ in range(k - 1))
+    bounds = [0] + cuts + [nt]
+    return [(3 * bounds[i], bounds[i + 1] - bounds[i]) for i in range(k)]
+
+
+def sse_malformed(rng, nt):
+    """tables outside the hypothesis of C17_sse_refit_keeps_ranges: a gap in front, overlapping ranges,
+    gaps between segments, ranges beyond the triangle list, an index that is no multiple of 3"""
+    kind = rng.choice(["front", "overlap", "gaps", "beyond", "odd"])
+    if kind == "front":
+        a = rng.randint(1, max(1, nt))
+        return [(3 * a, max(0, nt - a))]
+    if kind == "overlap":
+        a = rng.randint(0, nt)
+        return [(0, max(a, (nt + 1) // 2)), (3 * min(a, nt // 2), nt - min(a, nt // 2))]
+    if kind == "gaps":
+        a = rng.randint(0, nt)
+        return [(0, a // 2), (3 * a, (nt - a) // 2)]
+    if kind == "beyond":
+        return [(0, nt), (3 * nt, rng.randint(1, 3))]
+    return [(1, nt // 2), (3 * (nt // 2) + 2, nt - nt // 2)]
+
+
+def sse_tiles(sse, nt):
+    pos = 0
+    for (ix, n) in sse:
+        if ix != 3 * pos:
+            return False
+        pos += n
+    return pos == nt
+
+
+# the vm_compute witnesses of Properties_C17.v, replayed on the implementation on every run
+# (the model must predict the dumps, i.e. the implementation shows the refuted behaviour too)
+T6 = ";".join("%d.%d.%d" % (3 * k, 3 * k + 1, 3 * k + 2) for k in range(6))
+WITNESS = {
+    # C17_sse_refit_ranges_refuted: one segment 2..5 of 6, delete triangle 0 -> still 6.4 on 5 triangles
+    "sse-front-gap": ("seg ver=fo4 nv=18 attrs=u tris=%s inf=0:- labels=0,0,0,0,0,0 steps=0 save=0 sse=6.4" % T6, "6.4"),
+    # C17_sse_refit_overlap_refuted: 0..3 and 2..5, delete triangle 3 -> 0.3;9.3 on 5 triangles
+    "sse-overlap": ("seg ver=fo4 nv=18 attrs=u tris=%s inf=0:- labels=0,0,0,0,0,0 steps=9 save=0 sse=0.4;6.4" % T6, "0.3;9.3"),
+    # C17_sse_example: a tiling stays a tiling
+    "sse-tiling": ("seg ver=fo4 nv=18 attrs=u tris=%s inf=0:- labels=0,0,0,0,0,0 steps=15 save=0 sse=0.2;6.2;12.2" % T6, "0.2;6.2;12.1"),
+}
+# C17_set_get_records_refuted: 30 sub-segments with user slot 0 in one segment, one triangle
+RECORDS30 = "seg ver=fo4 nv=3 attrs=u tris=0.1.2 inf=0:%s labels=0 steps= save=1" % "+".join("%d.0" % k for k in range(1, 31))
 
 
 def gen_cases(tier, rng):
@@ -50,6 +101,10 @@ def gen_cases(tier, rng):
     # the former counter-example of the re-fit (repaired as C17-refit-first-subsegment-start) first
     nv, tris = disjoint_tris(6)
     cases.append(case_line("fo4", nv, tris, "0:1.0+2.0;3:-", [0, 0, 1, 2, 2, 3], [[15]]))
+    cases += [w[0] for w in WITNESS.values()] + [RECORDS30]
+    # 29 numbered sub-segments (the largest well-formed count) plus real slots
+    cases.append("seg ver=fo4 nv=3 attrs=u tris=0.1.2 inf=0:%s labels=0 steps= save=1" % "+".join(
+        ["%d.%d" % (k, (k * 7) % 30) for k in range(1, 30)] + ["30.30", "31.77"]))
     # exhaustive label lists
     for inf, maxnt in ((INF_A, 4 if quick else 6), (INF_B, 3 if quick else 4), (INF_P, 3 if quick else 5)):
         ids = gs.inf_ids(gs.parse_inf(inf)) + [-1]
@@ -62,7 +117,8 @@ def gen_cases(tier, rng):
                     steps = [[3 * nt]]                     # an unused vertex: no triangle goes
                 if nt > 1 and rng.random() < 0.3:
                     steps.append([0])
-                cases.append(case_line(ver, nv if nt else 1, tris, inf, labels, steps, 1 if quick or k % 3 == 0 else 0))
+                sse = sse_tiling(rng, nt) if (nt and k % 4 == 1) else None
+                cases.append(case_line(ver, nv if nt else 1, tris, inf, labels, steps, 1 if quick or k % 3 == 0 else 0, sse))
     # random: larger triangle counts, shared vertices, random infos
     for _ in range(300 if quick else 5000):
         nt = rng.randint(1, 12 if quick else 40)
@@ -89,7 +145,9 @@ def gen_cases(tier, rng):
             m = rng.randint(1, min(3, left))
             steps.append(sorted(rng.sample(range(left), m)))
             left -= m
-        cases.append(case_line(rng.choice(["fo4", "fo76"]), nv, tris, ";".join(inf), labels, steps))
+        u = rng.random()
+        sse = sse_tiling(rng, nt) if u < 0.45 else (sse_malformed(rng, nt) if u < 0.6 else None)
+        cases.append(case_line(rng.choice(["fo4", "fo76"]), nv, tris, ";".join(inf), labels, steps, sse=sse))
     return cases
 
 
@@ -143,8 +201,21 @@ def check_case(rep, case, iline, mset, mdel, stats):
         pre = gs.parse_state(pre_s)
         states = [gs.parse_state(x.split("S ", 1)[1] if not x.startswith("S") else x) for x in dels]
         valid = all(l == -1 or l in gs.inf_ids(inf) for l in labels) and len(labels) == pre["b"]["nt"]
+        # hypotheses of the new theorems: the SSE table tiles the triangle list (C17_sse_refit_keeps_ranges);
+        # fewer than 30 sub-segments with a user slot below 30 per segment (C17_set_get_records)
+        sse_wf = sse_tiles(pre["b"]["SSE"], pre["b"]["nt"])
+        slots_wf = all(sum(1 for (_, slot) in subs if slot < 30) < 30 for (_, subs) in inf)
+        if pre["b"]["SSE"]:
+            stats["sse_tiling" if sse_wf else "sse_malformed"] = stats.get("sse_tiling" if sse_wf else "sse_malformed", 0) + 1
+        if not slots_wf:
+            stats["records_malformed"] = stats.get("records_malformed", 0) + 1
+
+        def outside_hyp(msg):
+            return (not sse_wf and msg.startswith("SSE segment")) or (not slots_wf and msg.startswith("segmentation info read back"))
         if valid:
-            e = gs.set_errors(pre, inf, labels, dtok, states[0])
+            e = [m for m in gs.set_errors(pre, inf, labels, dtok, states[0]) if not outside_hyp(m)]
+            if slots_wf and any(s for (_, s) in inf):
+                stats["records_checked"] = stats.get("records_checked", 0) + 1
             if e:
                 fails.append({"case": case, "step": "set", "errors": e[:5]})
             stats["sets"] = stats.get("sets", 0) + 1
@@ -161,7 +232,11 @@ def check_case(rep, case, iline, mset, mdel, stats):
             errs = []
             if want != got:
                 errs.append("labels after vertex deletion %s, surviving triangles carried %s" % (got, want))
-            errs += gs.seg_range_errors(cur["b"], True)
+            errs += [m for m in gs.seg_range_errors(cur["b"], True) if not outside_hyp(m)]
+            if cur["b"]["SSE"] and sse_wf:
+                stats["sse_refits_checked"] = stats.get("sse_refits_checked", 0) + 1
+                if not sse_tiles(cur["b"]["SSE"], cur["b"]["nt"]):
+                    errs.append("SSE segment table no longer tiles the triangle list after the re-fit: %s on %d triangles" % (cur["b"]["SSE"], cur["b"]["nt"]))
             if sorted(cur["b"]["TR"]) != sorted(gs.tris_after(prev["b"]["TR"], set(idx))):
                 errs.append("triangles after deletion are not the untouched ones")
             stats["refits"] = stats.get("refits", 0) + 1
@@ -178,6 +253,18 @@ def check_case(rep, case, iline, mset, mdel, stats):
             elif refit_status == "known" and gs.refit_bug_applies(prev, cur):
                 fails.append({"case": case, "step": k + 1, "errors": ["known re-fit defect expected on this input but the labels are right: matcher or tree changed"]})
             prev = cur
+        for name, (wcase, wsse) in WITNESS.items():
+            if case == wcase:
+                stats["witness_" + name] = 1
+                got = ";".join("%d.%d" % t for t in states[-1]["b"]["SSE"])
+                if got != wsse or states[-1]["b"]["nt"] != 5:
+                    fails.append({"case": case, "errors": ["witness %s of Properties_C17.v: the implementation leaves SSE table %s on %d triangles, the theorem says %s on 5" % (name, got, states[-1]["b"]["nt"], wsse)]})
+        if case == RECORDS30:
+            stats["witness_records-30"] = 1
+            got = gs.parse_gsI(states[0].get("gsI", ""))
+            slots = [x[1] for x in got[0][1]] if got else []
+            if slots != [0] * 29 + [30]:
+                fails.append({"case": case, "errors": ["witness records-30 of Properties_C17.v: the implementation reads the user slots %s back, the theorem says 29 x 0 then 30" % slots]})
         rl = [x for x in I if x.startswith("RL ")]
         if rl and ok_so_far:
             stats["reloads"] = stats.get("reloads", 0) + 1
@@ -187,7 +274,7 @@ def check_case(rep, case, iline, mset, mdel, stats):
                 re = gs.parse_state(rl[0].split("S ", 1)[1])
                 if prev["b"]["nt"] > 0 and (re.get("gsL") != prev.get("gsL") or re["b"]["TR"] != prev["b"]["TR"]
                                             or gs.parse_gsI(re.get("gsI", "")) != gs.parse_gsI(prev.get("gsI", ""))
-                                            or gs.seg_range_errors(re["b"], True)):
+                                            or [m for m in gs.seg_range_errors(re["b"], True) if not outside_hyp(m)]):
                     fails.append({"case": case, "errors": ["labels / segment tables differ after save + reload: %s vs %s" % (re.get("gsL"), prev.get("gsL"))]})
     except Exception as ex:
         fails.append({"case": case, "errors": ["unparsable dump: %r" % (ex,)]})
@@ -270,10 +357,14 @@ def run(tier, seed, replay=None):
     cov.update({
         "evaluations": len(cases),
         "distinct_nontrivial": len(nontriv),
-        "rule": "every label list over the declared ids and -1 for up to %s triangles with three segmentation infos (2 segments with 2+1 sub-segments; 3 segments x 2 sub-segments; permuted ids with an empty segment), alternating FO4 / FO76, each followed by a vertex deletion (a triangle's vertex or an unused vertex) and mostly save + reload; seeded random infos (1-4 segments, 0-3 sub-segments, user slots below and above 30, permuted ids) on up to %d triangles with shared vertices and up to 3 deletions; the two shapes of the skinned FO4 sample; non-trivial = at least two distinct labels; distinct = distinct case lines" % ("4/3/3" if tier == "quick" else "6/4/5", 12 if tier == "quick" else 40),
+        "rule": "every label list over the declared ids and -1 for up to %s triangles with three segmentation infos (2 segments with 2+1 sub-segments; 3 segments x 2 sub-segments; permuted ids with an empty segment), alternating FO4 / FO76, each followed by a vertex deletion (a triangle's vertex or an unused vertex) and mostly save + reload; seeded random infos (1-4 segments, 0-3 sub-segments, user slots below and above 30, permuted ids) on up to %d triangles with shared vertices and up to 3 deletions; an SSE-style segment table on about half of them (tilings with 1-4 segments, and a malformed stream: gap in front, overlaps, gaps, beyond the list, index no multiple of 3: correspondence only); the vm_compute witnesses of the _refuted theorems (sse-front-gap, sse-overlap, records-30) and a 29+2 sub-segment info; the two shapes of the skinned FO4 sample; non-trivial = at least two distinct labels; distinct = distinct case lines" % ("4/3/3" if tier == "quick" else "6/4/5", 12 if tier == "quick" else 40),
         "samples": cases[:2] + cases[len(cases) // 2:len(cases) // 2 + 2] + cases[-2:],
         "input_distribution": {"set_get_checked": stats.get("sets", 0), "refit_steps": stats.get("refits", 0),
-                               "refit_steps_hitting_known_finding": stats.get("known", 0), "save_reload_checked": stats.get("reloads", 0)},
+                               "refit_steps_hitting_known_finding": stats.get("known", 0), "save_reload_checked": stats.get("reloads", 0),
+                               "records_round_trips_checked": stats.get("records_checked", 0), "records_malformed_infos": stats.get("records_malformed", 0),
+                               "sse_tiling_cases": stats.get("sse_tiling", 0), "sse_malformed_cases": stats.get("sse_malformed", 0),
+                               "sse_refit_steps_checked": stats.get("sse_refits_checked", 0),
+                               "refuted_witnesses_replayed": sorted(k[8:] for k in stats if k.startswith("witness_"))},
         "traces_validated_against_impl": len(mres) // 2,
         "correspondence_mismatches": len(mism),
         "spec_failures_on_impl": len(fails),
@@ -282,4 +373,5 @@ def run(tier, seed, replay=None):
                                              "tools/geomspec.py: the property evaluated on dumps, written without the model"],
         "exhaustive": False,
     })
-    return rep.finish(cov, ["label list has one entry per triangle; every label is an id declared in the segmentation info or -1 (valid_labels: an undeclared label indexes oldToNewPartIDs out of bounds in the C++, Fault in the model, outside the property's quantifier); ids in the info are distinct and non-negative"])
+    return rep.finish(cov, ["label list has one entry per triangle; every label is an id declared in the segmentation info or -1 (valid_labels: an undeclared label indexes oldToNewPartIDs out of bounds in the C++, Fault in the model, outside the property's quantifier); ids in the info are distinct and non-negative",
+                            "records round trip: fewer than 30 sub-segments with userSlotID < 30 per segment (C17_set_get_records; otherwise C17_set_get_records_general says what is read, C17_set_get_records_refuted shows the difference); SSE table range facts: the table tiles the triangle list from 0 (C17_sse_refit_keeps_ranges; otherwise refuted, witnesses replayed)"])
